@@ -22,14 +22,33 @@ ASSUMPTIONS = ["callbacks: x + y, x > c, x // 2 (async for anyio, the same funct
 OUTSIDE = ["inputs longer than the stated bound", "non-integer elements", "uvloop, trio"]
 MUST_REACH = ["both-raised", "nonempty-result", "empty-result", "tee:interleaved", "tee:source-consumed-once"]
 
-FUNCS = ["accumulate", "accumulate_initial", "batched", "batched_strict", "chain", "chain_from_iterable", "combinations", "combinations_with_replacement",
+FUNCS = ["accumulate", "accumulate_initial", "accumulate_default", "accumulate_default_lists", "accumulate_default_lists_initial", "batched", "batched_strict", "chain", "chain_from_iterable", "combinations", "combinations_with_replacement",
          "compress", "count", "cycle", "dropwhile", "filterfalse", "groupby", "groupby_key", "islice1", "islice2", "islice3", "pairwise", "permutations", "product",
          "repeat", "starmap", "takewhile", "zip_longest", "reduce", "reduce_initial"]
+
+
+class _AIterable:
+    """an asynchronous ITERABLE that is not an iterator: every __aiter__() call starts a fresh traversal"""
+
+    def __init__(self, xs):
+        self.xs = xs
+        self.traversals = 0
+
+    def __aiter__(self):
+        self.traversals += 1
+
+        async def agen():
+            for x in self.xs:
+                yield x
+
+        return agen()
 
 
 def _src(kind, xs):
     if kind == "sync":
         return list(xs)
+    if kind == "aiterable":
+        return _AIterable(list(xs))
 
     async def agen():
         for x in xs:
@@ -94,12 +113,38 @@ def diff(sym, cov, fn, kind, L):
         # groupby yields (key, list) in anyio and (key, iterator) in the stdlib
         return v
 
+    side: dict = {}
+
     async def main():
         S = lambda seq=xs: _src(kind, seq)  # noqa: E731
         ys = [x + 1 for x in xs[:2]]
         if fn == "accumulate":
             exp = lambda: list(std.accumulate(list(xs), sadd))  # noqa: E731
             got = lambda: collect(ai.accumulate(S(), aadd))  # noqa: E731
+        elif fn == "accumulate_default":
+            exp = lambda: list(std.accumulate(list(xs)))  # noqa: E731
+            got = lambda: collect(ai.accumulate(S()))  # noqa: E731
+        elif fn in ("accumulate_default_lists", "accumulate_default_lists_initial"):
+            # elements with an in-place `+=` (lists): the default function must behave like operator.add -- the running
+            # totals are new objects, neither the source elements nor `initial` are modified
+            src_a = [[x] for x in xs]
+            src_b = [[x] for x in xs]
+            init_a, init_b = [thr], [thr]
+            kw_a = {"initial": init_a} if fn.endswith("initial") else {}
+            kw_b = {"initial": init_b} if fn.endswith("initial") else {}
+
+            async def g():
+                out = []
+                async for v_ in ai.accumulate(_src(kind, src_a), **kw_a):
+                    out.append(list(v_))  # snapshot at the moment it is yielded
+                if not (src_a == [[x] for x in xs] and init_a == [thr]):
+                    side["input-modified"] = {"source": src_a, "initial": init_a}
+                return out
+
+            def ref():
+                return [list(v_) for v_ in std.accumulate(src_b, **kw_b)]
+
+            exp, got = ref, g
         elif fn == "accumulate_initial":
             exp = lambda: list(std.accumulate(list(xs), sadd, initial=thr))  # noqa: E731
             got = lambda: collect(ai.accumulate(S(), aadd, initial=thr))  # noqa: E731
@@ -213,6 +258,7 @@ def diff(sym, cov, fn, kind, L):
         e, r = VLoop().run(main(), max_cycles=2000)
     except (Deadlock, CycleBudget) as ex:
         raise Violation("liveness:" + type(ex).__name__)
+    chk(not side, "function-modified-its-input", side)
     if e[0] == "exc" or r[0] == "exc":
         chk(e[0] == r[0], "one-side-raised", {"stdlib": repr(e), "anyio": repr(r)})
         chk(e[1] is r[1], "different-error-class", {"stdlib": e[1].__name__, "anyio": r[1].__name__})
@@ -314,6 +360,10 @@ def units(tier):
         light = [f for f in FUNCS if f not in heavy and f not in ("count", "cycle", "repeat", "batched", "batched_strict", "islice1")]
         for fn in light:
             us.append({"name": "%s sync L=5" % fn, "fn": diff, "params": {"fn": fn, "kind": "sync", "L": 5}, "budget_s": 1500})
+    # sources that are asynchronous iterables but not iterators (a fresh traversal per __aiter__ call)
+    for fn in FUNCS:
+        ll = 2 if quick else 3
+        us.append({"name": "%s aiterable L=%d" % (fn, ll), "fn": diff, "params": {"fn": fn, "kind": "aiterable", "L": ll}, "budget_s": 240 if quick else 1200})
     for nc in ((2,) if quick else (2, 3)):
         for kind in ("sync", "async"):
             us.append({"name": "tee nc=%d %s" % (nc, kind), "fn": tee_scn, "params": {"nc": nc, "L": 2 if quick else 3, "kind": kind}, "budget_s": 240 if quick else 1200})
